@@ -125,7 +125,7 @@ pub fn exec(c: &Case, em: &mut Emitter) {
         Some((a, b, x)) => json!({"start": a - T0, "end": b - T0, "extra": x}),
         None => json!(null),
     }).collect();
-    em.emit(json!({"t":"end","tasks":res,"virtual_ns": now() - T0, "real_ms": real.elapsed().as_millis() as u64, "turns": turns}));
+    em.emit(json!({"t":"end","tasks":res,"virtual_ns": now() - T0, "real_over_1500ms": real.elapsed().as_millis() > 1500, "turns": turns}));
     lp.leave();
     lp.forget();
 }
@@ -184,9 +184,8 @@ pub fn judge(c: &Case, res: &ChildResult, rep: &mut Report) {
         return;
     }
     // the loop thread itself must never really block for the waits
-    let real = e["real_ms"].as_u64().unwrap_or(0);
-    if real > 1500 && longest >= 1000 * MS {
-        rep.violation("c15.mix/loop-thread-not-blocked-for-real/-", format!("{}: {real}ms of REAL time passed while the virtual clock owned all waiting", c.to_json()), replay());
+    if e["real_over_1500ms"] == true && longest >= 1000 * MS {
+        rep.violation("c15.mix/loop-thread-not-blocked-for-real/-", format!("{}: more than 1500ms of REAL time passed while the virtual clock owned all waiting", c.to_json()), replay());
         return;
     }
     if c.tasks.len() >= 2 && sum > longest + SLACK {
